@@ -93,7 +93,7 @@ func (g *tgen) attr(el string, ind int) string {
 	switch k := g.r.intn(16); {
 	case k < 3:
 		g.note("attr-const")
-		v := g.r.pick([]string{"v", "a b", "x&amp;y", "it's", "&lt;", "", "é", "1&quot;2", "a&#39;b"})
+		v := g.r.pick([]string{"v", "a b", "x&amp;y", "it's", "&lt;", "", "é", "1&quot;2", "a&#39;b", "/s?q=1&amp;copy=2&amp;lt=5", "a&amp;amp;b", "&amp;#65", "x &amp; y", "&copy", "a&b", "&amp;reg"})
 		if g.r.chance(1, 4) && !strings.Contains(v, "'") {
 			return fmt.Sprintf("data-k='%s'", strings.ReplaceAll(v, "&quot;", "\""))
 		}
